@@ -209,34 +209,11 @@ Definition parse_name (nm : list byte) : outcome (list byte * option (Z * Z) * l
 
 (* ---------- keyword tables ---------- *)
 
-Definition scope_kw : list (list byte * N) :=
-  [ ([109;111;100;117;108;101], 0); ([116;97;115;107], 1); ([102;117;110;99;116;105;111;110], 2);
-    ([98;101;103;105;110], 3); ([102;111;114;107], 4); ([103;101;110;101;114;97;116;101], 5);
-    ([115;116;114;117;99;116], 6); ([117;110;105;111;110], 7); ([99;108;97;115;115], 8);
-    ([105;110;116;101;114;102;97;99;101], 9); ([112;97;99;107;97;103;101], 10); ([112;114;111;103;114;97;109], 11);
-    ([118;104;100;108;95;97;114;99;104;105;116;101;99;116;117;114;101], 12);
-    ([118;104;100;108;95;112;114;111;99;101;100;117;114;101], 13);
-    ([118;104;100;108;95;102;117;110;99;116;105;111;110], 14);
-    ([118;104;100;108;95;114;101;99;111;114;100], 15);
-    ([118;104;100;108;95;112;114;111;99;101;115;115], 16);
-    ([118;104;100;108;95;98;108;111;99;107], 17);
-    ([118;104;100;108;95;102;111;114;95;103;101;110;101;114;97;116;101], 18);
-    ([118;104;100;108;95;105;102;95;103;101;110;101;114;97;116;101], 19);
-    ([118;104;100;108;95;103;101;110;101;114;97;116;101], 20);
-    ([118;104;100;108;95;112;97;99;107;97;103;101], 21) ].
+(* generated from vcd.rs convert_scope_tpe and the declaration order of hierarchy.rs ScopeType (Generated/Consts.v) *)
+Definition scope_kw : list (list byte * N) := scope_kw_src.
 
 (* VarType codes follow the declaration order of the enum (see harness/src/hier.rs VAR_TYPES) *)
-Definition var_kw : list (list byte * N) :=
-  [ ([119;105;114;101], 15); ([114;101;103], 4); ([112;97;114;97;109;101;116;101;114], 2);
-    ([105;110;116;101;103;101;114], 1); ([115;116;114;105;110;103], 17); ([101;118;101;110;116], 0);
-    ([114;101;97;108], 3); ([114;101;97;108;95;112;97;114;97;109;101;116;101;114], 2);
-    ([115;117;112;112;108;121;48], 5); ([115;117;112;112;108;121;49], 6); ([116;105;109;101], 7);
-    ([116;114;105], 8); ([116;114;105;97;110;100], 9); ([116;114;105;111;114], 10);
-    ([116;114;105;114;101;103], 11); ([116;114;105;48], 12); ([116;114;105;49], 13);
-    ([119;97;110;100], 14); ([119;111;114], 16); ([108;111;103;105;99], 22); ([112;111;114;116], 18);
-    ([115;112;97;114;114;97;121], 19); ([114;101;97;108;116;105;109;101], 20); ([98;105;116], 21);
-    ([105;110;116], 23); ([115;104;111;114;116;105;110;116], 24); ([108;111;110;103;105;110;116], 25);
-    ([98;121;116;101], 26); ([101;110;117;109], 27); ([115;104;111;114;116;114;101;97;100], 28) ].
+Definition var_kw : list (list byte * N) := var_kw_src.
 
 (* TimescaleUnit codes: fs ps ns us ms s unknown = 0..6 *)
 Definition unit_kw : list (list byte * N) :=
